@@ -551,7 +551,8 @@ let suite_stage t v =
           let n = name_tok () in let r = name_tok () in let pv = name_tok () in let h = name_tok () in
           let b = nz t in let e = nz t in let tm = nz t in
           { M.p_name = n; p_renamed = r; p_prev = pv; p_size = M.Z0; p_hash = h; p_beg = b; p_end = e; p_time = tm }))
-    | "SQ" -> let n = name_tok () in let off = ni t in `SQ (n, off)
+    | "SQ" -> let n = name_tok () in let off = ni t in `SQ (n, off, [])
+    | "SV" -> let n = name_tok () in let off = ni t in let h = name_tok () in `SQ (n, off, h)
     | "IM" ->
         let nann = ni t in
         let ann = times nann (fun () ->
@@ -792,15 +793,21 @@ let suite_stage t v =
            if not (M.Z.eqb ia ma) then diff v ("received@" ^ ks);
            (* C09: parts counted as received are on record or the file was delivered/held *)
            st := st'
-       | `SQ (n, off) ->
+       | `SQ (n, off, h) ->
            let ia = ni t in
            let sent = if off = 0 then M.Z0 else M.Z.add now (z_of_int off) in
-           let (st', ma) = M.status_q !st now n sent in
+           let (st', ma) = M.status_q !st now n h sent in
            if debug then Printf.eprintf "op %d status impl=%d model=%d\n" k ia (int_of_z ma);
            if ia <> int_of_z ma then diff v ("status@" ^ ks);
            (* C02 (receiver half): a positive answer needs a durably held validated copy *)
-           if ia = 2 || ia = 3 then
+           if ia = 2 || ia = 3 then begin
              if not (M.ahas n st'.M.waits || M.log_has st' n []) then oracle v "positive_status_without_copy" (int_of_z ma = ia);
+             (* ... of the version that was asked about *)
+             if h <> [] then begin
+               let held = (match M.alookup n st'.M.waits with Some b -> md5_name b = h | None -> false) in
+               if not (held || M.log_has st' n h) then oracle v "positive_status_for_another_version" (int_of_z ma = ia)
+             end
+           end;
            st := st'
        | `SC ->
            let nc = ni t in
